@@ -377,7 +377,11 @@ func propHostObjects(c *Ctx) {
 		{"time.Now()", time.Now()}, {"time.Now().Add", time.Now().Add(3 * time.Second)}, {"time in a zone", time.Unix(7, 9).In(time.FixedZone("Z", 3600))},
 		{"map", map[string]int{"a": 1}}, {"chan", make(chan int)}, {"[]int", []int{1, 2}}, {"uint8", uint8(9)}, {"complex", complex(1, 2)}}
 	for _, h := range hosts {
-		for _, how := range []string{"NewVariant", "VariantFromObject", "SetAsObject"} {
+		hows := []string{"NewVariant", "VariantFromObject", "SetAsObject"}
+		if _, isTime := h.v.(time.Time); isTime {
+			hows = append(hows, "VariantFromDateTime", "SetAsDateTime")
+		}
+		for _, how := range hows {
 			op := "hostobj " + how + " " + strRunes(h.name)
 			c.record(op, true)
 			c.count("host-object")
@@ -389,6 +393,11 @@ func propHostObjects(c *Ctx) {
 					v = variants.NewVariant(h.v)
 				case "VariantFromObject":
 					v = variants.VariantFromObject(h.v)
+				case "VariantFromDateTime":
+					v = variants.VariantFromDateTime(h.v.(time.Time))
+				case "SetAsDateTime":
+					v = variants.EmptyVariant()
+					v.SetAsDateTime(h.v.(time.Time))
 				default:
 					v = variants.EmptyVariant()
 					v.SetAsObject(h.v)
